@@ -134,6 +134,7 @@ def cases(draw):
         'via': 'signal' if no_process else draw(st.sampled_from(['signal', 'signal', 'api'])),
         'then_valid_reload': draw(st.booleans()),
         'ribout': ribout,
+        'readd': draw(route_set()) if (n_old == 2 and len(new) == 1) else None,
     }
 
 
@@ -294,6 +295,23 @@ def check(case: dict) -> dict:
                 out['tables'] = tables
                 removed = [PEERS[nb['peer']]['ip'] for nb in case['old'] if nb['peer'] not in [x['peer'] for x in case['new']]]
                 out['removed_closed'] = {ip: (sessions[ip].closed_at is not None) for ip in removed if ip in sessions}
+                gone = [nb for nb in case['old'] if nb['peer'] not in [x['peer'] for x in case['new']]]
+                if gone and case.get('readd') is not None and kind is None:
+                    # a later reload configures the removed neighbor again, with other routes: what it held before it was removed
+                    # (whether its session was up or down then) must not come back
+                    again = {'peer': gone[0]['peer'], 'hold': 30, 'routes': case['readd']}
+                    with open(path, 'w') as fh:
+                        fh.write(render(case['new'] + [again], ribout))
+                    n_results = len(results)
+                    hn.signal_reload()
+                    await hn.sleep(3.0)
+                    if len(results) == n_results:
+                        await hn.sleep(5.0)
+                    if len(results) > n_results and results[-1]:
+                        r = await bring_up(hn, runner, PEERS[again['peer']]['ip'])
+                        if r is not None:
+                            await hn.sleep(3.0)
+                            out['readd'] = (again, peer_table(r))
             else:
                 after_neighbors = {k: sorted(str(r) for r in n.routes) for k, n in hn.reactor.configuration.neighbors.items()}
                 out['neighbors_same'] = after_neighbors == before_neighbors
@@ -374,6 +392,13 @@ def check(case: dict) -> dict:
         for ip, closed in out.get('removed_closed', {}).items():
             if not closed:
                 raise Violation('reload:removed-neighbor-session-kept', ip)
+        if 'readd' in out:
+            again, got = out['readd']
+            want = table_of_config(again)
+            got = {k: v for k, v in got.items() if k not in API_PREFIX}  # routes announced through the API before the removal: not judged
+            if got != want:
+                raise Violation('reload:removed-then-configured-again:routes-of-the-old-definition', f'{PEERS[again["peer"]]["ip"]} was removed and configured again with {sorted(want)}: it was sent {sorted(got)}; session_up={case["session_up"]}')
+            classes.append('neighbor-removed-then-configured-again')
         changed = False
         for nb in case['new']:
             old = next((o for o in case['old'] if o['peer'] == nb['peer']), None)
@@ -408,4 +433,12 @@ def check(case: dict) -> dict:
     return {'nontrivial': True, 'classes': classes}
 
 
-ENGINES = [Engine('reloads', cases, check, quick=120, thorough=5000, batch=100, thorough_s=1200.0)]
+def fixed_cases() -> list:
+    """a neighbor removed by a reload (session up, and session down) and configured again by the next one with other routes"""
+    out = []
+    for up in (True, False):
+        out.append({'no_process': False, 'old': [{'peer': 0, 'hold': 30, 'routes': [[0, 1, 0]]}, {'peer': 1, 'hold': 30, 'routes': [[0, 1, 0], [1, 2, 0]]}], 'new': [{'peer': 0, 'hold': 30, 'routes': [[0, 1, 0]]}], 'break': None, 'break_at': 0, 'session_up': up, 'api': [], 'via': 'signal', 'then_valid_reload': False, 'ribout': True, 'readd': [[2, 3, 0]]})
+    return out
+
+
+ENGINES = [Engine('reloads', cases, check, quick=120, thorough=5000, batch=100, thorough_s=1200.0, fixed_cases=fixed_cases)]
